@@ -101,6 +101,9 @@ class _StrInterp:
                     return fmt.format(*[self.ev(a) for a in e.args])
         if isinstance(e, ast.Call) and isinstance(e.func, ast.Name):
             name = e.func.id
+            if name == "fields" and len(e.args) == 1 and not e.keywords and \
+                    isinstance(e.args[0], ast.Name) and e.args[0].id == "cls":
+                return [("FIELD", f) for f in self.fields]
             if name in ("list", "tuple") and len(e.args) == 1:
                 v = self.ev(e.args[0])
                 if isinstance(v, list):
@@ -275,7 +278,16 @@ def instantiate(model, nfields=2) -> Instantiation:
             elif src in env and isinstance(env[src], str):
                 out += env[src]
             else:
-                raise TemplateError(f"template hole {{{src}}} not understood")
+                # any other hole: a value computed from the field list
+                try:
+                    v = interp.ev(p.value)
+                except TemplateError:
+                    raise TemplateError(
+                        f"template hole {{{src}}} not understood") from None
+                if not isinstance(v, (str, int, bool)):
+                    raise TemplateError(
+                        f"template hole {{{src}}} is not text or a number")
+                out += repr(v) if p.conversion == 114 else str(v)
     code = textwrap.dedent(out)
     try:
         mod = ast.parse(code)
